@@ -14,6 +14,13 @@ Full structural decision for what may flow into an isolated context:
                afterwards on that branch.
   C15-FRESH    ``RenderContext.__init__`` creates fresh ``locals``, ``counters``, ``loops`` and
                ``tag_namespace`` (the copy's assignments land in its own namespace).
+  C15-INIT     ``RenderContext.__init__`` keeps the ``globals`` mapping it is given by reference
+               (no truthiness default: the render tag fills an initially empty chain map after
+               the copy).
+  C15-PARENT   ``parent_context`` is read only for resource accounting (a frozen attribute
+               list); ``parentloop()`` answers from the context's own loop stack.
+               In the block-scope branch of ``copy`` the parent's scope may reach the new
+               context's ``scope`` chain only, never its globals (C15-CTOR).
   C15-DISABLED ``render`` passes ``disabled_tags`` containing ``include``; ``call`` passes
                ``include`` and ``block``; ``Node.render*`` checks ``disabled_tags`` (raising
                DisabledTagError) before delegating to ``render_to_output*`` and no node class
@@ -57,7 +64,7 @@ def _mentions_caller_state(expr, ctxname="context", state=CALLER_STATE) -> list[
 
 def run(repo: Repo) -> Result:
     res = Result(PID)
-    res.rules = ["C15-COPY", "C15-NS", "C15-CTOR", "C15-FRESH", "C15-DISABLED"]
+    res.rules = ["C15-COPY", "C15-NS", "C15-CTOR", "C15-FRESH", "C15-INIT", "C15-PARENT", "C15-DISABLED"]
     res.explanation = "flow rule: what may reach the context a render/call body runs on"
     res.assumptions = ["RenderContext.copy is the only factory of child contexts (checked: C15-COPY requires it)"]
     copy_fn = repo.own_method(CTX, "copy")
@@ -150,6 +157,26 @@ def run(repo: Repo) -> Result:
         raise AnchorMissing("RenderContext.copy: expected one constructor call per block_scope branch")
     for c, isolated, part in ctor_calls:
         if not isolated:
+            # the block-scope branch: the new context may *read* the parent's scope, but only
+            # through its own `scope` chain.  If the parent's scope/locals became part of the
+            # block context's globals, a `render` issued from inside the block would inherit
+            # them (its isolated context is built from the caller's globals).
+            res.ob(f"{copy_fn.qual}:block-ctor", 2)
+            kw = {k.arg: k.value for k in c.keywords}
+            g = kw.get("globals")
+            for a in list(c.args) + [k.value for k in c.keywords]:
+                for b_ in _mentions_caller_state(a, "self"):
+                    res.add("C15-CTOR", copy_fn.qual, f"block-ctor<-{b_}", f"`{b_}` flows into the block context's constructor ({'globals' if a is g else 'argument'}): templates rendered from inside the block build their isolated globals from it and would see the parent template's local variables", copy_fn.file, c.lineno)
+            for s_ in part:
+                if isinstance(s_, ast.Assign) and not any(x is c for x in ast.walk(s_)):
+                    tgt = text(s_.targets[0])
+                    leaks = _mentions_caller_state(s_.value, "self")
+                    if tgt == "ctx.scope":
+                        continue  # the one sanctioned place for the parent's scope
+                    if tgt == "ctx.tag_namespace['extends']" and text(s_.value) == "self.tag_namespace['extends']":
+                        continue  # block bookkeeping of the inheritance chain, not variables
+                    if leaks:
+                        res.add("C15-CTOR", copy_fn.qual, f"block-post:{tgt}<-{leaks[0]}", f"the block branch of copy stores `{leaks[0]}` in `{tgt}`", copy_fn.file, s_.lineno)
             continue
         res.ob(f"{copy_fn.qual}:isolated-ctor", 2)
         kw = {k.arg: k.value for k in c.keywords}
@@ -191,6 +218,53 @@ def run(repo: Repo) -> Result:
         res.ob(f"{init.qual}:{k}")
         if not ok:
             res.add("C15-FRESH", init.qual, k, f"RenderContext.__init__ must create a fresh `{k}` literal for every context", init.file, init.line)
+
+    # ---- C15-INIT: the globals mapping is kept by reference ---------------------------------
+    # `render` copies the context with a namespace that is still empty and stores the bound
+    # variable / forloop in it afterwards; an empty ReadOnlyChainMap is falsy, so a truthiness
+    # default (`globals or {}`) silently swaps it for a fresh dict.
+    res.ob(f"{init.qual}:globals-by-reference")
+    gl = None
+    for st in walk_no_nested(init.node):
+        tgt = st.targets[0] if isinstance(st, ast.Assign) else st.target if isinstance(st, ast.AnnAssign) else None
+        if tgt is not None and is_self_attr(tgt) and tgt.attr == "globals":
+            gl = st.value
+    if gl is None:
+        raise AnchorMissing("RenderContext.__init__ no longer assigns self.globals")
+    by_ref = is_name(gl, "globals") or (
+        isinstance(gl, ast.IfExp) and is_name(gl.body, "globals") and text(gl.test) == "globals is not None"
+    )
+    if not by_ref:
+        res.add("C15-INIT", init.qual, f"globals={text(gl)[:40]}", f"RenderContext.__init__ binds `self.globals = {text(gl)}`: an empty (falsy) namespace chain is replaced by a different object, so the bound variable that `render ... with/for` adds to it afterwards never reaches the partial", init.file, gl.lineno)
+
+    # ---- C15-PARENT: a copy reaches back into its parent for accounting only ---------------
+    allowed_parent_attrs = {"_copy_depth", "loop_iteration_carry", "local_namespace_size_carry", "env", "template", "disabled_tags", "parent_context", "get_size_of_locals", "raise_for_loop_limit"}
+    n_reads = 0
+    parents: dict[int, ast.AST] = {}
+    for f in repo.all_functions():
+        if not f.module.name.startswith("liquid"):
+            continue
+        for n in ast.walk(f.node):
+            for ch in ast.iter_child_nodes(n):
+                parents[id(ch)] = n
+        for n in ast.walk(f.node):
+            if isinstance(n, ast.Attribute) and n.attr == "parent_context" and isinstance(n.ctx, ast.Load):
+                n_reads += 1
+                up = parents.get(id(n))
+                if isinstance(up, ast.Attribute) and up.value is n and up.attr in allowed_parent_attrs:
+                    continue
+                if isinstance(up, ast.Compare) or (isinstance(up, (ast.If, ast.While, ast.IfExp, ast.BoolOp, ast.UnaryOp))):
+                    continue  # presence test
+                what = up.attr if isinstance(up, ast.Attribute) and up.value is n else "<escapes>"
+                res.add("C15-PARENT", f.qual, f"parent_context.{what}", f"{f.qual} reaches into the parent (caller) context: `{text(up)[:70]}` — a copied context may consult its parent for resource accounting only; variables, loops and tag state of the caller must stay invisible", f.file, n.lineno)
+    res.ob("parent_context-reads", 1)
+    res.stats["parent_context_reads"] = n_reads
+    pl = repo.own_method(CTX, "parentloop")
+    res.ob(pl.qual)
+    for r in [x for x in walk_no_nested(pl.node) if isinstance(x, ast.Return) and x.value is not None]:
+        tv = text(r.value)
+        if tv != "self.loops[-1]" and not tv.startswith("self.env.undefined("):
+            res.add("C15-PARENT", pl.qual, f"returns:{tv[:40]}", f"parentloop() must answer from this context's own loop stack or with Undefined; it returns `{tv}`", pl.file, r.lineno)
 
     # ---- C15-DISABLED (Node.render) ---------------------------------------------
     for m, target in (("render", "render_to_output"), ("render_async", "render_to_output_async")):
@@ -244,11 +318,15 @@ def selftest(repo: Repo):
         v("render-on-caller-context", R, "            template.render_with_context(ctx, buffer, partial=True, block_scope=True)\n\n        return True", "            template.render_with_context(context, buffer, partial=True, block_scope=True)\n\n        return True", "C15-COPY"),
         v("render-allows-include", R, "disabled_tags=[TAG_INCLUDE],", "disabled_tags=[],", "C15-DISABLED", count=2),
         v("call-allows-include", M, 'disabled_tags = ["include", "block"]', 'disabled_tags = ["block"]', "C15-DISABLED"),
-        v("copy-passes-scope", C, "                globals=ReadOnlyChainMap(namespace, self.globals),", "                globals=ReadOnlyChainMap(namespace, self.scope),", "C15-CTOR"),
+        v("copy-passes-scope", C, "        else:\n            ctx = self.__class__(\n                template or self.template,\n                globals=ReadOnlyChainMap(namespace, self.globals),", "        else:\n            ctx = self.__class__(\n                template or self.template,\n                globals=ReadOnlyChainMap(namespace, self.scope),", "C15-CTOR"),
         v("copy-shares-locals", C, "                local_namespace_size_carry=self.get_size_of_locals(),\n            )\n\n        return ctx", "                local_namespace_size_carry=self.get_size_of_locals(),\n            )\n            ctx.locals = self.locals\n\n        return ctx", "C15-CTOR"),
         v("namespace-leaks-locals", R, "        args = {arg.name: arg.value.evaluate(context) for arg in self.args}\n", "        args = {**context.locals, **{arg.name: arg.value.evaluate(context) for arg in self.args}}\n", "C15-NS"),
         v("macro-extends-instead-of-copy", M, "        macro_context = context.copy(\n            namespace=namespace,\n            disabled_tags=self.disabled_tags,\n            carry_loop_iterations=True,\n        )\n\n        return macro.block.render(macro_context, buffer)", "        with context.extend(namespace) as macro_context:\n            return macro.block.render(macro_context, buffer)", "C15-COPY"),
         v("node-render-skips-check", "liquid/ast.py", "        if context.disabled_tags:\n            self.raise_for_disabled(context.disabled_tags)\n        return self.render_to_output(context, buffer)", "        return self.render_to_output(context, buffer)", "C15-DISABLED"),
+        v("block-copy-scope-in-globals", C, "        if block_scope:\n            ctx = self.__class__(\n                template or self.template,\n                globals=ReadOnlyChainMap(namespace, self.globals),", "        if block_scope:\n            ctx = self.__class__(\n                template or self.template,\n                globals=ReadOnlyChainMap(namespace, self.scope),", "C15-CTOR"),
+        v("init-globals-truthiness", C, "globals if globals is not None else {}", "globals or {}", "C15-INIT"),
+        v("parentloop-falls-back-to-parent", C, '            return self.env.undefined("parentloop", token=None)', '            if self.parent_context is not None:\n                return self.parent_context.parentloop()\n            return self.env.undefined("parentloop", token=None)', "C15-PARENT"),
+        v("get-falls-back-to-parent-locals", C, "    def parentloop(self) -> Union[Undefined, object]:", "    def _caller_local(self, key: str) -> object:\n        return self.parent_context.locals.get(key) if self.parent_context else None\n\n    def parentloop(self) -> Union[Undefined, object]:", "C15-PARENT"),
         v("init-shares-counters", C, "        self.counters: dict[str, int] = {}", "        self.counters: dict[str, int] = parent_context.counters if parent_context else {}", "C15-FRESH"),
         v("include-overrides-render", "liquid/builtin/tags/include_tag.py", "    def __str__(self) -> str:\n        var = f\" with {self.var}\" if self.var else \"\"", "    def render(self, context, buffer):\n        return self.render_to_output(context, buffer)\n\n    def __str__(self) -> str:\n        var = f\" with {self.var}\" if self.var else \"\"", "overrides-render"),
     ]
